@@ -117,14 +117,23 @@ func c13Val(kind int, base time.Time, r time.Duration, salt int) []byte {
 	case 5:
 		ext = make([]byte, 24)
 	}
+	// flag bits outside the synced set (application-local flags) may be set on any entry: only the deleted flag
+	// makes an entry a marker
+	local := byte(0)
+	switch salt % 13 {
+	case 4:
+		local = 0x02
+	case 9:
+		local = 0xc0
+	}
 	if c13IsMarker(kind) {
 		var left []byte
 		if salt%11 == 6 {
 			left = []byte("left-over payload of a deleted entry")
 		}
-		return model.BuildHeader(ts, 3, 1, ext, left)
+		return model.BuildHeader(ts, 3, 1|local, ext, left)
 	}
-	return model.BuildHeader(ts, 3, 0, ext, []byte(fmt.Sprintf("v%d", salt)))
+	return model.BuildHeader(ts, 3, local, ext, []byte(fmt.Sprintf("v%d", salt)))
 }
 
 type c13State struct {
